@@ -4,6 +4,7 @@ from props import dmnfam
 
 INV = ['C15_Reuse', 'C15_ConfigMapNoSweep', 'C15_AtMostOnce']
 PROP = ['C15_StoredUntilDiscarded']
+MONPROP = PROP + ['C15_ResetDiscards']
 
 
 def check(run):
@@ -29,7 +30,7 @@ def check(run):
     traces = run.drive('TestDriveC15', shards, lambda i: dict(VERIF_SEED=run.seed * 1000 + i, VERIF_N=run.pick(3, 60)), 'c15', timeout=3000)
     run.sample_from(traces[0], 2)
     dmnfam.conformance(run, traces)
-    run.validate('Monitor_Daemon', dmnfam.monitor_cfg(INV, PROP), traces, 'mon')
+    run.validate('Monitor_Daemon', dmnfam.monitor_cfg(INV, MONPROP), traces, 'mon')
     # known finding D10 is checked in a pass of its own so that it cannot mask anything else
     run.validate('Monitor_Daemon', dmnfam.monitor_cfg(['C15_ReadmeSkip'], []), traces, 'monreadme')
     starts = dmnfam.count(traces, lambda ln: '"ev":"Begin"' in ln)
